@@ -72,6 +72,11 @@ def run(ctx):
 
     # ---- C03.2 EqualReader::read
     equal_reader_rules(ctx, "C03.2")
+    # ---- C03.9 a zero-length read (which returns 0 anywhere in the body) does not end a chunked body either: the end-of-body latch of the
+    # draining readers (C09.6's evaluation, taken over)
+    import drain_rules as DR_
+    n9 = DR_.latch_rule(ctx, "C03.9")
+    ctx.counts["C03.9 latch-governed readers examined"] = n9
     # ---- C03.8 the reader a request is built over is its own share of the connection, positioned right after its head (otherwise "all remaining
     # bytes" / "the next N bytes" are taken from somewhere else, or from nowhere): the head reader's rule of C09.4, taken over
     import rules_C09, engine
@@ -177,6 +182,10 @@ def equal_reader_rules(ctx, rule):
     where = "%s:%d" % (g.file, g.line)
     er = facts.adt(ER)["variants"][0]["fields"]
     skey = shared.size_key_of(facts, ER)
+    if skey is None:
+        sinit = shared.size_init(facts, ER)
+        if sinit is not None and len(sinit) == 2:
+            return equal_reader_rules_pair(ctx, rule, g0, g, sinit)
     ctx.require(skey is not None, "%s: remaining-size field of EqualReader" % rule)
     SIZE = ("init", (1, "*") + skey)
     BUF = ("init", (2,))
@@ -254,6 +263,65 @@ def equal_reader_rules(ctx, rule):
             ok_d = bool(subs) and subs[0][2] == SIZE and absint.mentions_call(subs[0][3], e[4])
             if not ok_d and not (fin[0] == "call" and re.search(r"(saturating|wrapping|checked)_sub$", fin[1]) and False):
                 bad_dec.append(symex.sym_str(fin)[:100])
+    ctx.floor("%s paths of EqualReader::read that reach the inner reader" % rule, n, 1)
+    ctx.ob(rule, "%s|slice-bounded-by-size" % g0.id, "the buffer handed to the inner reader is the caller's buffer only when it is shorter than the remaining size, otherwise a prefix of at most `size` bytes",
+           not bad_bound, where, None if not bad_bound else str(bad_bound[:3]))
+    ctx.ob(rule, "%s|size-decremented-by-count" % g0.id, "the remaining size decreases by exactly the count the inner read returned", not bad_dec, where, None if not bad_dec else str(bad_dec[:3]))
+    ctx.ob(rule, "%s|returns-count" % g0.id, "read returns the inner reader's count unchanged", not bad_ret, where, None if not bad_ret else str(bad_ret[:3]))
+
+
+def equal_reader_rules_pair(ctx, rule, g0, g, sinit):
+    """the same three rules for a reader that keeps the declared length and the number of bytes delivered so far (what remains is their
+    difference)"""
+    import drain_rules as DR
+    facts = ctx.facts
+    where = "%s:%d" % (g.file, g.line)
+    kd = [k for k, v in sinit.items() if v == DR.SIZE][0]
+    kc = [k for k in sinit if k != kd][0]
+    READ = r"std::io::Read::read$| as std::io::Read>::read$"
+    is_read = lambda e: re.search(READ, e[2]) or e[6] == "std::io::Read::read"
+    # nothing remaining
+    st = symex.Sym(g)
+    st.write_key(kd, ("const", 5, "5_usize", None))
+    st.write_key(kc, ("const", 5, "5_usize", None))
+    ps = [p for p in absint.explore(g, 0, st) if p.end[0] not in FRM.DEAD]
+    ok = bool(ps) and all(p.end[0] == "return" and p.ret()[0] == "agg" and p.ret()[2] == "Ok" and absint.const_of(p.ret()[3]["0"]) == 0 for p in ps) and not any(is_read(e) for p in ps for e in p.calls())
+    ctx.ob(rule, "%s|eof-at-zero" % g0.id, "with nothing remaining, read returns Ok(0) without touching the inner reader (never reads past the declared length)", ok, where)
+    # general case: remaining = declared - delivered
+    REM = {repr(("init", kd)): 1, repr(("init", kc)): -1}
+    def lin(x):
+        return DR.norm(DR.linear(x))
+    ps = [p for p in absint.explore(g, 0, None) if p.end[0] not in FRM.DEAD]
+    ctx.paths += len(ps)
+    n = 0
+    bad_bound, bad_dec, bad_ret = [], [], []
+    for p in ps:
+        reads = [e for e in p.calls() if is_read(e)]
+        if not reads:
+            continue
+        n += 1
+        if len(reads) != 1:
+            bad_bound.append("%d inner reads" % len(reads))
+            continue
+        e = reads[0]
+        buf = e[8][1] if len(e) > 8 and e[8] and len(e[8]) > 1 else absint.deep(p.state, e[3][1])
+        bs = DR.len_bounds(buf) + DR.cond_bounds(p, buf)
+        def within(b, d=0):
+            if lin(b) == REM:
+                return True
+            return bool(b and b[0] == "call" and re.search(r"::min$", b[1]) and d < 3 and any(within(absint.deep(p.state, a), d + 1) for a in b[2]))
+        if not any(within(b) for b in bs):
+            bad_bound.append(" / ".join(symex.sym_str(b)[:60] for b in bs) or "unbounded")
+        if p.end[0] == "return" and p.ret()[0] == "agg" and p.ret()[2] == "Ok":
+            cnt = p.ret()[3]["0"]
+            if not absint.mentions_call(cnt, e[4]):
+                bad_ret.append(symex.sym_str(cnt)[:80])
+            fin_c = absint.deep(p.state, p.state.read_key(kc))
+            fin_d = absint.deep(p.state, p.state.read_key(kd))
+            lc = lin(fin_c)
+            grown = lc.get(repr(("init", kc))) == 1 and len(lc) == 2 and any(isinstance(k_, tuple) and k_[0] == "n" and v_ == 1 for k_, v_ in lc.items())
+            if not (grown and fin_d == ("init", kd)):
+                bad_dec.append("%s / %s" % (symex.sym_str(fin_d)[:40], symex.sym_str(fin_c)[:60]))
     ctx.floor("%s paths of EqualReader::read that reach the inner reader" % rule, n, 1)
     ctx.ob(rule, "%s|slice-bounded-by-size" % g0.id, "the buffer handed to the inner reader is the caller's buffer only when it is shorter than the remaining size, otherwise a prefix of at most `size` bytes",
            not bad_bound, where, None if not bad_bound else str(bad_bound[:3]))
